@@ -10,18 +10,138 @@ Record QB (s : qrw) : Prop := mkQB {
   qb_s2 : forall t, spin s = Some t -> spin_pc (qp (qthr s t)) = true;
   qb_wk : forall t w, qwake (qthr s t) = Some w -> wake_pc (qp (qthr s t)) = true;
   qb_qu : forall h, In h (qu s) -> (qp (qthr s h) = QDefer \/ qp (qthr s h) = QSleep) /\ qwake (qthr s h) = None;
-  qb_qs : forall h, In h (qs s) -> (qp (qthr s h) = QDefer \/ qp (qthr s h) = QSleep) /\ qwake (qthr s h) = None
+  qb_qs : forall h, In h (qs s) -> (qp (qthr s h) = QDefer \/ qp (qthr s h) = QSleep) /\ qwake (qthr s h) = None;
+  qb_ndu : NoDup (qu s);
+  qb_nds : NoDup (qs s);
+  qb_dis : forall h, In h (qu s) -> In h (qs s) -> False
 }.
 
 Lemma QB0 : QB qrw0.
-Proof. constructor; simpl; try (intros; discriminate); tauto. Qed.
+Proof. constructor; simpl; try (intros; discriminate); try tauto; constructor. Qed.
 
 Lemma QB_step s l s' : QB s -> qstep s l = Some s' -> QB s'.
 Proof.
-  intros [H1 H2 Hwk Hqu Hqs] Hstep.
+  intros [H1 H2 Hwk Hqu Hqs Hndu Hnds Hdis] Hstep.
   qstep_cases Hstep; qthr_simp.
   all: constructor; simpl.
   all: try solve [assumption].
   all: try solve [pw_intro x Hx t; [simpl in Hx; try discriminate Hx | apply H1; exact Hx]].
-  all: match goal with |- ?G => idtac "GOAL" G end.
-Abort.
+  (* s2 *)
+  all: try solve [pw_intro x Hx t; [first [reflexivity | (apply H2 in Hx; rewrite E in Hx; discriminate Hx)] | apply H2; exact Hx]].
+  all: try solve [intros x Hx; inversion Hx; subst; rewrite upd_same; reflexivity].
+  all: try solve [intros x Hx; discriminate Hx].
+  (* s1 *)
+  all: try solve [pw_intro x Hx t; [first [reflexivity | apply H1; rewrite E; reflexivity | simpl in Hx; discriminate Hx]
+                                   | first [apply H1; exact Hx
+                                           | exfalso; apply H1 in Hx; congruence
+                                           | exfalso; apply H1 in Hx; assert (spin s = Some t) by (apply H1; rewrite E; reflexivity); congruence ]]].
+  (* wk *)
+  all: try solve [intros x w'; unfold upd; destruct (Nat.eqb_spec x t) as [->|?]; simpl; intros Hx;
+                  [first [discriminate Hx | reflexivity | (apply Hwk in Hx; rewrite E in Hx; discriminate Hx)] | eapply Hwk; exact Hx]].
+  (* queues *)
+  all: try solve [intros h Hin; first [destruct (Hqu _ Hin) as [Hp Hw] | destruct (Hqs _ Hin) as [Hp Hw]];
+                  unfold upd; destruct (Nat.eqb_spec h t) as [->|?]; simpl; [|split; assumption];
+                  first [ exfalso; rewrite E in Hp; destruct Hp; discriminate
+                        | split; [right; reflexivity | assumption]
+                        | exfalso; congruence ]].
+  all: try match goal with Es : spin ?s0 = _ |- context [spin ?s0] => rewrite Es end.
+  (* A: try_fn of either path *)
+  all: try solve [pw_intro x Hx t; [|apply H1; exact Hx]; apply H1; rewrite E; destruct slow; simpl in *; try discriminate; reflexivity].
+  all: try solve [pw_intro x Hx t; [|apply H2; exact Hx]; apply H2 in Hx; rewrite E in Hx; destruct slow; simpl in *; congruence].
+  (* B/E: spinning *)
+  all: try solve [pw_intro x Hx t; [simpl in Hx; discriminate Hx | apply H1; exact Hx]].
+  all: try solve [pw_intro x Hx t; [apply H2 in Hx; rewrite E in Hx; simpl in Hx; discriminate Hx | apply H2; exact Hx]].
+  all: try solve [intros x w; unfold upd; destruct (Nat.eqb_spec x t) as [->|?]; simpl; intros Hx; [|eapply Hwk; exact Hx];
+                  first [ congruence
+                        | apply Hwk in Hx; rewrite E in Hx; destruct n; simpl in *; congruence ]].
+  (* C: stutter *)
+  all: try solve [first [exact H1 | exact H2]].
+  (* only wake fields change *)
+  all: try solve [intros x; unfold upd; repeat (match goal with |- context [Nat.eqb ?a ?b] => destruct (Nat.eqb_spec a b); subst; simpl end);
+                  intros Hx; first [discriminate Hx | apply H1; exact Hx | apply H2; exact Hx]].
+  (* queue membership facts about the woken / dequeued thread *)
+  all: try match goal with
+    | Hm0 : q_waiting _ _ && _ = true |- _ => apply andb_true_iff in Hm0; destruct Hm0 as [Hm0 _]
+    end.
+  all: try match goal with
+    | Hm0 : q_waiting ?s0 ?t0 = true |- _ => unfold q_waiting in Hm0; apply orb_true_iff in Hm0;
+        assert ((qp (qthr s0 t0) = QDefer \/ qp (qthr s0 t0) = QSleep) /\ qwake (qthr s0 t0) = None) as [Hpt Hwt]
+          by (destruct Hm0 as [Hm0|Hm0]; apply mem_tid_In in Hm0; [apply Hqu|apply Hqs]; exact Hm0)
+    end.
+  all: try match goal with
+    | Eq : qu ?s0 = ?h :: _ |- _ =>
+        assert ((qp (qthr s0 h) = QDefer \/ qp (qthr s0 h) = QSleep) /\ qwake (qthr s0 h) = None) as [Hph Hwh]
+          by (apply Hqu; left; reflexivity)
+    | Eq : qs ?s0 = ?h :: _ |- _ =>
+        assert ((qp (qthr s0 h) = QDefer \/ qp (qthr s0 h) = QSleep) /\ qwake (qthr s0 h) = None) as [Hph Hwh]
+          by (apply Hqs; left; reflexivity)
+    end.
+  all: try solve [apply remove_tid_NoDup; assumption].
+  all: try solve [match goal with Eq : qu ?s0 = _ |- NoDup (qu ?s0) => rewrite Eq; assumption
+                                 | Eq : qs ?s0 = _ |- NoDup (qs ?s0) => rewrite Eq; assumption end].
+  all: try solve [match goal with Hn : NoDup (_ :: ?l0) |- NoDup ?l0 => inversion Hn; assumption end].
+  all: try solve [apply NoDup_app_iff_tail; [assumption|]; intros Hin;
+                  first [destruct (Hqu _ Hin) as [Hp _] | destruct (Hqs _ Hin) as [Hp _]]; rewrite E in Hp; destruct Hp; discriminate].
+  (* wake bookkeeping of the woken thread *)
+  all: try solve [intros x w; unfold upd; repeat (match goal with |- context [Nat.eqb ?a ?b] => destruct (Nat.eqb_spec a b); subst; simpl end);
+                  intros Hx; first [ discriminate Hx | reflexivity | eapply Hwk; exact Hx
+                                   | match goal with Hp : _ = QDefer \/ _ = QSleep |- _ => destruct Hp as [Hp|Hp]; rewrite Hp; reflexivity end
+                                   | eapply Hwk; eassumption ]].
+  (* queues *)
+  all: try solve [intros h Hin; apply in_app_or in Hin; destruct Hin as [Hin|[<-|[]]];
+                  unfold upd; [destruct (Nat.eqb_spec h t) as [->|?]; simpl;
+                                [split; [left; reflexivity|reflexivity] | first [apply Hqu; exact Hin|apply Hqs; exact Hin]]
+                              | rewrite Nat.eqb_refl; simpl; split; [left; reflexivity|reflexivity]]].
+  (* disjointness *)
+  all: try solve [intros h Hu Hs; first [apply remove_tid_In in Hu | idtac]; first [apply remove_tid_In in Hs | idtac]; eapply Hdis; eauto].
+  all: try solve [intros h Hu Hs; eapply Hdis; [|exact Hs];
+                  match goal with Eq : qu _ = _ :: _ |- _ => right; exact Hu end].
+  all: try solve [intros h Hu Hs; eapply Hdis; [exact Hu|];
+                  match goal with Eq : qs _ = _ :: _ |- _ => right; exact Hs end].
+  all: try solve [intros h Hu Hs; apply in_app_or in Hu; destruct Hu as [Hu|[<-|[]]]; [eapply Hdis; eauto|];
+                  destruct (Hqs _ Hs) as [Hp _]; rewrite E in Hp; destruct Hp; discriminate].
+  all: try solve [intros h Hu Hs; apply in_app_or in Hs; destruct Hs as [Hs|[<-|[]]]; [eapply Hdis; eauto|];
+                  destruct (Hqu _ Hu) as [Hp _]; rewrite E in Hp; destruct Hp; discriminate].
+  (* empty queue *)
+  all: try solve [intros h Hin; exfalso;
+                  match goal with Eq : qu _ = [] |- _ => first [rewrite Eq in Hin | idtac] | Eq : qs _ = [] |- _ => first [rewrite Eq in Hin | idtac] end;
+                  first [destruct Hin | destruct (Hqu _ Hin) as [[]] | destruct (Hqs _ Hin) as [[]] ]].
+  (* a waiter taken out by the environment *)
+  all: try solve [intros h Hin;
+                  assert (h <> t) as Hht by (intros ->; first [eapply (remove_tid_self_notin t (qu s)); eassumption
+                                                                | eapply (remove_tid_self_notin t (qs s)); eassumption]);
+                  apply remove_tid_In in Hin; unfold upd; destruct (Nat.eqb_spec h t) as [?|_]; [contradiction|];
+                  first [apply Hqu; exact Hin | apply Hqs; exact Hin]].
+  - intros x; unfold upd; destruct (Nat.eqb_spec x t) as [->|?]; simpl; intros Hx;
+      [apply H1; rewrite E; reflexivity | destruct (Nat.eqb_spec x t0) as [->|?]; simpl in Hx; apply H1; exact Hx].
+  - intros x Hx; unfold upd; destruct (Nat.eqb_spec x t) as [->|?]; simpl;
+      [reflexivity | destruct (Nat.eqb_spec x t0) as [->|?]; simpl; apply H2; exact Hx].
+  - assert (t <> t0) as Htt by (intros ->; rewrite E in Hph; destruct Hph; discriminate).
+    intros x w'; unfold upd. destruct (Nat.eqb_spec x t) as [->|?]; simpl.
+    + destruct (Nat.eqb_spec t t0); [contradiction|]. intros Hx. apply Hwk in Hx. rewrite E in Hx. discriminate Hx.
+    + destruct (Nat.eqb_spec x t0) as [->|?]; simpl; intros Hx; [|eapply Hwk; exact Hx].
+      destruct Hph as [Hp|Hp]; rewrite Hp; reflexivity.
+  - assert (t <> t0) as Htt by (intros ->; rewrite E in Hph; destruct Hph; discriminate).
+    intros h Hin. inversion Hndu; subst.
+    assert (h <> t0) by (intros ->; contradiction).
+    destruct (Hqu h (or_intror Hin)) as [Hp Hw].
+    assert (h <> t) by (intros ->; rewrite E in Hp; destruct Hp; discriminate).
+    rewrite !upd_other by assumption. split; assumption.
+  - assert (t <> t0) as Htt by (intros ->; rewrite E in Hph; destruct Hph; discriminate).
+    intros h Hin.
+    assert (h <> t0) by (intros ->; eapply Hdis; [left; reflexivity|exact Hin]).
+    destruct (Hqs h Hin) as [Hp Hw].
+    assert (h <> t) by (intros ->; rewrite E in Hp; destruct Hp; discriminate).
+    rewrite !upd_other by assumption. split; assumption.
+  - intros h _ Hs. rewrite E0 in Hs. destruct Hs.
+  - intros h Hin.
+    assert (h <> t0) by (intros ->; eapply Hdis; [exact Hin|left; reflexivity]).
+    rewrite upd_other by assumption. apply Hqu. exact Hin.
+  - intros h Hin. inversion Hnds; subst.
+    assert (h <> t0) by (intros ->; contradiction).
+    rewrite upd_other by assumption. apply Hqs. right. exact Hin.
+Qed.
+
+Lemma qreach_QB s : qreach s -> QB s.
+Proof. induction 1; [exact QB0|eapply QB_step; eauto]. Qed.
+
